@@ -15,6 +15,10 @@ Lemma Forall2_map_same {A B C} (R : B -> C -> Prop) (f : A -> B) (g : A -> C) l 
   Forall (fun x => R (f x) (g x)) l -> Forall2 R (map f l) (map g l).
 Proof. induction 1; cbn [map]; constructor; assumption. Qed.
 
+Lemma Forall2_impl' {A B} (R R' : A -> B -> Prop) l l' :
+  (forall a b, R a b -> R' a b) -> Forall2 R l l' -> Forall2 R' l l'.
+Proof. intros H. induction 1; constructor; auto. Qed.
+
 Lemma Forall_perm {A} (P : A -> Prop) l l' : Permutation l l' -> Forall P l -> Forall P l'.
 Proof.
   intros Hp H. rewrite Forall_forall in *. intros x Hx. apply H.
@@ -407,7 +411,7 @@ Lemma run_entries_ext {St} es1 es2 : Forall2 (rel_snd (@trav_eq St)) es1 es2 ->
 Proof.
   intros H rel tree st.
   assert (H' : Forall2 (rel_snd (trav_sim St St eq)) es1 es2).
-  { eapply Forall2_impl; [|exact H]. intros a b [E T]. split; [exact E|].
+  { eapply Forall2_impl'; [|exact H]. intros a b [E T]. split; [exact E|].
     apply trav_sim_eq; exact T. }
   destruct (run_entries_sim St St eq es1 es2 H' rel tree st st eq_refl) as [E1 E2].
   apply injective_projections; assumption.
@@ -467,7 +471,7 @@ Lemma run_entries_spec es :
 Proof.
   induction 1 as [|e es He _ IH]; intros rel tree st Hn; cbn [map run_entries flat_map].
   - rewrite app_nil_r. reflexivity.
-  - cbn [on_snd fst snd] at 1 2 3. rewrite He. cbn [fst snd].
+  - rewrite !fst_on_snd, !snd_on_snd. rewrite He. cbn [fst snd].
     assert (Hab : ~ In (fst e) (map fst tree)).
     { cbn [map] in Hn. apply NoDup_remove_2 in Hn. intros C. apply Hn.
       apply in_or_app. left; exact C. }
@@ -507,3 +511,653 @@ Proof.
   intros Hld t Hwf rel st. rewrite traverse_sort_tree.
   apply traverse_ord_spec; [exact Hld|]. apply wf_node_NoDup, wf_sort_tree, Hwf.
 Qed.
+
+(* ========================================================================================== *)
+(* 4. dictionaries: more frame lemmas                                                          *)
+(* ========================================================================================== *)
+
+Lemma update_update_same k v v' d : update k v' (update k v d) = update k v' d.
+Proof.
+  induction d as [|[k0 v0] d IH]; cbn [update].
+  - rewrite bytes_eqb_refl. reflexivity.
+  - destruct (bytes_eqb k0 k) eqn:E; cbn [update]; rewrite E; [reflexivity|].
+    rewrite IH. reflexivity.
+Qed.
+
+Lemma update_perm k v d d' :
+  Permutation d d' -> NoDup (map fst d) -> Permutation (update k v d) (update k v d').
+Proof.
+  induction 1 as [|[k0 v0] d d' Hp IH|[k0 v0] [k1 v1] d|d d' d'' Hp1 IH1 Hp2 IH2]; intros Hn.
+  - apply Permutation_refl.
+  - cbn [update]. cbn [map fst] in Hn. inversion Hn; subst.
+    destruct (bytes_eqb k0 k); apply perm_skip; [exact Hp|apply IH; assumption].
+  - cbn [update]. cbn [map fst] in Hn. inversion Hn as [|x l Hx Hl]; subst.
+    destruct (bytes_eqb k0 k) eqn:E0; destruct (bytes_eqb k1 k) eqn:E1; cbn [update];
+      rewrite ?E0, ?E1; try apply perm_swap.
+    apply bytes_eqb_eq in E0, E1. subst. exfalso. apply Hx. left; reflexivity.
+  - eapply perm_trans; [apply IH1; exact Hn|apply IH2].
+    eapply Permutation_NoDup; [apply Permutation_map; exact Hp1|exact Hn].
+Qed.
+
+Lemma update_swap_perm k1 v1 k2 v2 d : k1 <> k2 ->
+  Permutation (update k1 v1 (update k2 v2 d)) (update k2 v2 (update k1 v1 d)).
+Proof.
+  intros N. induction d as [|[k0 v0] d IH]; cbn [update].
+  - destruct (bytes_eqb_spec k2 k1); [congruence|].
+    destruct (bytes_eqb_spec k1 k2); [congruence|]. apply perm_swap.
+  - destruct (bytes_eqb k0 k2) eqn:E2; destruct (bytes_eqb k0 k1) eqn:E1; cbn [update];
+      rewrite ?E1, ?E2.
+    + apply bytes_eqb_eq in E1, E2. congruence.
+    + apply Permutation_refl.
+    + apply Permutation_refl.
+    + apply perm_skip. exact IH.
+Qed.
+
+(* what sort_meta does after the info dictionary has been sorted *)
+Definition sort_layers (meta : dict) : dict :=
+  sort_keys
+    match lookup k_piece_layers meta with
+    | Some (BDict l) => update k_piece_layers (BDict (sort_keys l)) meta
+    | _ => meta
+    end.
+
+Lemma sort_meta_close meta info :
+  sort_meta (close_meta meta info) = sort_layers (close_meta meta (sort_keys info)).
+Proof.
+  unfold sort_meta, close_meta, sort_layers. rewrite lookup_update_same, update_update_same.
+  reflexivity.
+Qed.
+
+(* the written metafile does not depend on the insertion order of the info keys *)
+Lemma sort_meta_close_perm meta i1 i2 :
+  Permutation i1 i2 -> NoDup (map fst i1) ->
+  sort_meta (close_meta meta i1) = sort_meta (close_meta meta i2).
+Proof.
+  intros Hp Hn. rewrite !sort_meta_close, (sort_keys_perm_eq i1 i2 Hp Hn). reflexivity.
+Qed.
+
+Ltac neq := apply bytes_eqb_neq; vm_compute; reflexivity.
+
+(* keys of the dictionaries made by MetaFile.__init__ *)
+Lemma meta_init_info_NoDup o name pl : NoDup (map fst (snd (meta_init o name pl))).
+Proof.
+  unfold meta_init. cbv zeta. cbn [snd].
+  repeat match goal with
+         | |- NoDup (map fst (update _ _ _)) => apply update_NoDup
+         | |- NoDup (map fst (if ?c then _ else _)) => destruct c
+         end; constructor.
+Qed.
+
+Lemma meta_init_meta_NoDup o name pl : NoDup (map fst (fst (meta_init o name pl))).
+Proof.
+  unfold meta_init. cbv zeta. cbn [fst].
+  repeat match goal with
+         | |- NoDup (map fst (update _ _ _)) => apply update_NoDup
+         | |- NoDup (map fst (if ?c then _ else _)) => destruct c
+         end;
+    (apply nodupb_spec; vm_compute; reflexivity).
+Qed.
+
+(* ========================================================================================== *)
+(* 5. the three file branches in terms of hasher_v2                                            *)
+(* ========================================================================================== *)
+
+Section Agree.
+Variable H1 H256 : bytes -> bytes.
+Variable B : nat.
+Hypothesis HB : 0 < B.
+Variable k pl : nat.
+Hypothesis Hpl : pl = B * 2 ^ k.
+
+Definition v2_root (d : bytes) : bytes := fst (hasher_v2 H256 B pl d).
+Definition v2_layer (d : bytes) : list bytes := snd (hasher_v2 H256 B pl d).
+
+(* piece_layers[root] = layer, only if size > piece_length *)
+Definition add_layer (d : bytes) (layers : dict) : dict :=
+  if pl <? length d then update (v2_root d) (BStr (concat (v2_layer d))) layers else layers.
+
+(* the dictionary _traverse returns for a file (all three classes) *)
+Definition leaf_of (d : bytes) : dict :=
+  if length d =? 0 then leaf_empty (length d) else leaf_dict (length d) (v2_root d).
+
+(* the v1 piece inputs and the pad file of one file (hybrid) *)
+Definition hy_inputs (padding : bool) (d : bytes) : list bytes :=
+  map (hy_piece pl padding) (chunks pl d).
+Definition hy_padfile (padding : bool) (d : bytes) : option nat :=
+  fold_left (hy_pf pl padding) (chunks pl d) None.
+Definition hy_entries (padding : bool) (rel : list bytes) (d : bytes) : list value :=
+  file_entry rel (length d) ::
+  (if length d =? 0 then []
+   else match hy_padfile padding d with Some n => [pad_entry n] | None => [] end).
+Definition hy_digests (padding : bool) (d : bytes) : list bytes :=
+  if length d =? 0 then [] else map H1 (hy_inputs padding d).
+
+Lemma v2_leaf_eq d rel layers :
+  v2_leaf H256 B pl d rel layers =
+  (leaf_of d, if length d =? 0 then layers else add_layer d layers).
+Proof. unfold v2_leaf, leaf_of, add_layer. cbv zeta. destruct (length d =? 0); reflexivity. Qed.
+
+Lemma hybrid_leaf_eq padding d rel st :
+  hybrid_leaf H1 H256 B padding pl d rel st =
+  (leaf_of d,
+   mk_hy (if length d =? 0 then hy_layers st else add_layer d (hy_layers st))
+         (hy_files st ++ hy_entries padding rel d)
+         (hy_pieces st ++ hy_digests padding d)).
+Proof.
+  unfold hybrid_leaf, leaf_of, add_layer, hy_entries, hy_digests. cbv zeta.
+  destruct (length d =? 0) eqn:E0; [rewrite app_nil_r; reflexivity|].
+  rewrite (hasher_hybrid_eq H256 B HB k pl Hpl).
+  fold (v2_root d) (v2_layer d) (hy_inputs padding d) (hy_padfile padding d).
+  destruct (hy_padfile padding d); [rewrite <- app_assoc|]; reflexivity.
+Qed.
+
+Lemma asm_leaf_eq hybrid padding d rel st :
+  asm_leaf H1 H256 B hybrid padding pl d rel st =
+  (leaf_of d,
+   mk_as (if length d =? 0 then as_layers st else add_layer d (as_layers st))
+         (if hybrid then as_files st ++ hy_entries padding rel d else as_files st)
+         (if hybrid then as_pieces st ++ concat (hy_digests padding d) else as_pieces st)).
+Proof.
+  unfold asm_leaf, leaf_of, add_layer, hy_entries, hy_digests. cbv zeta.
+  destruct (length d =? 0) eqn:E0.
+  - destruct hybrid; cbn [concat]; rewrite ?app_nil_r; reflexivity.
+  - destruct (file_hasher_run_spec H256 B HB k pl Hpl hybrid padding d)
+      as (R1 & _ & R3 & R4 & R5 & R6).
+    cbv zeta in R1, R3, R4, R5, R6. rewrite R1, R5, R6, R3, R4.
+    fold (v2_root d) (v2_layer d) (hy_inputs padding d) (hy_padfile padding d).
+    destruct hybrid; [|reflexivity].
+    destruct (hy_padfile padding d); [rewrite <- app_assoc|]; reflexivity.
+Qed.
+
+(* ---------- T5 (C10): TorrentAssembler = the dedicated classes ---------- *)
+
+Definition R_v2 (s : as_state) (layers : dict) : Prop := as_layers s = layers.
+
+Lemma asm_v2_leaf_sim padding d :
+  trav_sim as_state dict R_v2 (asm_leaf H1 H256 B false padding pl d) (v2_leaf H256 B pl d).
+Proof.
+  intros rel s layers HR. rewrite asm_leaf_eq, v2_leaf_eq. cbn [fst snd]. unfold R_v2 in *.
+  cbn [as_layers]. rewrite HR. split; reflexivity.
+Qed.
+
+Definition R_hy (s : as_state) (h : hy_state) : Prop :=
+  as_layers s = hy_layers h /\ as_files s = hy_files h /\ as_pieces s = concat (hy_pieces h).
+
+Lemma asm_hybrid_leaf_sim padding d :
+  trav_sim as_state hy_state R_hy (asm_leaf H1 H256 B true padding pl d)
+           (hybrid_leaf H1 H256 B padding pl d).
+Proof.
+  intros rel s h (E1 & E2 & E3). rewrite asm_leaf_eq, hybrid_leaf_eq. cbn [fst snd].
+  unfold R_hy. cbn [as_layers as_files as_pieces hy_layers hy_files hy_pieces].
+  rewrite E1, E2, E3, concat_app. repeat split; reflexivity.
+Qed.
+
+Theorem create_assembler_v2_agree o name t :
+  create_assembler H1 H256 B false o name pl t = create_v2_class H256 B o name pl t.
+Proof.
+  unfold create_assembler, create_v2_class, create_assembler_raw, create_v2_class_raw.
+  pose proof (meta_init_info_NoDup o name pl) as Hn.
+  destruct (meta_init o name pl) as [meta info]. cbn [snd] in Hn. cbv zeta.
+  destruct (traverse_sim as_state dict R_v2 _ _ (asm_v2_leaf_sim (negb (is_file t))) t
+              (root_rel t) (mk_as [] [] []) [] eq_refl) as [E1 E2].
+  unfold R_v2 in E2.
+  destruct (traverse as_state _ t (root_rel t) (mk_as [] [] [])) as [tree st].
+  destruct (traverse dict _ t (root_rel t) []) as [tree' layers].
+  cbn [fst snd] in E1, E2. subst tree' layers. f_equal.
+  apply sort_meta_close_perm.
+  - destruct t as [d|es].
+    + eapply perm_trans; [|apply update_swap_perm; neq].
+      apply update_perm; [apply update_swap_perm; neq|].
+      repeat apply update_NoDup. exact Hn.
+    + apply update_swap_perm; neq.
+  - destruct t; repeat apply update_NoDup; exact Hn.
+Qed.
+
+Theorem create_assembler_hybrid_agree o name t :
+  create_assembler H1 H256 B true o name pl t = create_hybrid_class H1 H256 B o name pl t.
+Proof.
+  unfold create_assembler, create_hybrid_class, create_assembler_raw, create_hybrid_class_raw.
+  destruct (meta_init o name pl) as [meta info]. cbv zeta.
+  assert (R0 : R_hy (mk_as [] [] []) (mk_hy [] [] [])) by (repeat split).
+  destruct (traverse_sim as_state hy_state R_hy _ _ (asm_hybrid_leaf_sim (negb (is_file t))) t
+              (root_rel t) _ _ R0) as [E1 (E2 & E3 & E4)].
+  destruct (traverse as_state _ t (root_rel t) (mk_as [] [] [])) as [tree st].
+  destruct (traverse hy_state _ t (root_rel t) (mk_hy [] [] [])) as [tree' st'].
+  cbn [fst snd] in E1, E2, E3, E4. subst tree'. rewrite E2, E3, E4.
+  destruct t; reflexivity.
+Qed.
+
+End Agree.
+
+(* ========================================================================================== *)
+(* 6. filelist_total                                                                           *)
+(* ========================================================================================== *)
+
+Lemma list_sum_perm l l' : Permutation l l' -> list_sum l = list_sum l'.
+Proof. unfold list_sum. induction 1; cbn [fold_right]; lia. Qed.
+
+Lemma NoDup_app' {A} (a b : list A) :
+  NoDup a -> NoDup b -> (forall x, In x a -> ~ In x b) -> NoDup (a ++ b).
+Proof.
+  induction 1 as [|x a Hx Ha IH]; intros Hb Hd; cbn [app]; [exact Hb|].
+  constructor.
+  - intros C. apply in_app_or in C. destruct C as [C|C]; [contradiction|].
+    apply (Hd x); [left; reflexivity|exact C].
+  - apply IH; [exact Hb|]. intros y Hy. apply Hd. right; exact Hy.
+Qed.
+
+(* a path string below [p] is [p] itself or continues with a separator *)
+Definition sep_headed (s : bytes) : Prop := s = [] \/ exists r, s = slash :: r.
+
+Lemma name_prefix_inj n : forall n' s s',
+  ~ In slash n -> ~ In slash n' -> sep_headed s -> sep_headed s' ->
+  n ++ s = n' ++ s' -> n = n'.
+Proof.
+  induction n as [|c n IH]; intros [|c' n'] s s' Hn Hn' Hs Hs' E; cbn [app] in E.
+  - reflexivity.
+  - exfalso. destruct Hs as [->|[r ->]]; [discriminate|]. injection E as E1 _.
+    apply Hn'. left. symmetry; exact E1.
+  - exfalso. destruct Hs' as [->|[r ->]]; [discriminate|]. injection E as E1 _.
+    apply Hn. left. exact E1.
+  - injection E as -> E. f_equal. apply (IH n' s s'); try assumption.
+    + intros C. apply Hn. right; exact C.
+    + intros C. apply Hn'. right; exact C.
+Qed.
+
+Definition flt_child (path : bytes) (rel : list bytes) (e : bytes * node) : nat * list flt_item :=
+  flt (path ++ slash :: fst e) (rel ++ [fst e]) (snd e).
+
+Definition flt_dir_items (path : bytes) (rel : list bytes) (es : list (bytes * node))
+  : list flt_item :=
+  concat (map snd (map (flt_child path rel) es)).
+
+Lemma flt_Dir_eq path rel es :
+  flt path rel (Dir es) =
+  (list_sum (map fst (map (flt_child path rel) es)), sort_names (flt_dir_items path rel es)).
+Proof. reflexivity. Qed.
+
+Lemma flt_Dir path rel es :
+  snd (flt path rel (Dir es)) = sort_names (flt_dir_items path rel es).
+Proof. reflexivity. Qed.
+
+Lemma flt_paths_below t : forall path rel x,
+  In x (map fst (snd (flt path rel t))) -> exists s, x = path ++ s /\ sep_headed s.
+Proof.
+  induction t as [d|es IH] using node_ind'; intros path rel x Hx.
+  - cbn in Hx. destruct Hx as [<-|[]]. exists []. rewrite app_nil_r. split; [reflexivity|left; reflexivity].
+  - rewrite flt_Dir in Hx.
+    apply (Permutation_in _ (Permutation_map fst (sort_names_perm _))) in Hx.
+    unfold flt_dir_items in Hx. rewrite map_map, concat_map, map_map in Hx.
+    apply in_concat in Hx. destruct Hx as (l & Hl & Hx).
+    apply in_map_iff in Hl. destruct Hl as (e & <- & He).
+    rewrite Forall_forall in IH. destruct (IH e He _ _ _ Hx) as (s & -> & _).
+    exists (slash :: fst e ++ s). rewrite <- app_assoc. split; [reflexivity|].
+    right. eexists; reflexivity.
+Qed.
+
+(* the path strings of a well-formed tree are pairwise distinct *)
+Theorem flt_paths_NoDup t : wf_node t -> forall path rel,
+  NoDup (map fst (snd (flt path rel t))).
+Proof.
+  induction t as [d|es IH] using node_ind'; intros Hwf path rel.
+  - cbn. constructor; [intros []|constructor].
+  - apply wf_Dir in Hwf. destruct Hwf as [[Hn Hok] Hc]. rewrite flt_Dir.
+    eapply Permutation_NoDup;
+      [apply Permutation_map, Permutation_sym, sort_names_perm|].
+    unfold flt_dir_items. rewrite map_map, concat_map, map_map.
+    induction es as [|e es IHes]; cbn [map concat]; [constructor|].
+    inversion IH as [|x l He Hes]; subst. inversion Hc as [|x l Hwe Hwes]; subst.
+    cbn [map] in Hn, Hok. inversion Hn as [|x l Hne Hnes]; subst.
+    inversion Hok as [|x l Hoe Hoes]; subst.
+    apply NoDup_app'.
+    + apply He. exact Hwe.
+    + apply IHes; assumption.
+    + intros x Hx C. apply in_concat in C. destruct C as (l & Hl & C).
+      apply in_map_iff in Hl. destruct Hl as (e' & <- & He').
+      destruct (flt_paths_below _ _ _ _ Hx) as (s & E1 & Hs).
+      destruct (flt_paths_below _ _ _ _ C) as (s' & E2 & Hs').
+      rewrite E1 in E2. rewrite <- !app_assoc in E2. apply app_inv_head in E2.
+      cbn [app] in E2. injection E2 as E2.
+      apply Hne. replace (fst e) with (fst e'); [apply in_map; exact He'|].
+      symmetry. apply (name_prefix_inj (fst e) (fst e') s s'); try assumption.
+      * apply Hoe.
+      * rewrite Forall_forall in Hoes. apply (Hoes (fst e')). apply in_map; exact He'.
+Qed.
+
+Lemma flt_perm_mut :
+  (forall t t', node_perm t t' -> wf_node t -> forall path rel, flt path rel t = flt path rel t') /\
+  (forall es es', entries_perm es es' -> Forall (fun e => wf_node (snd e)) es ->
+     forall path rel, map (flt_child path rel) es = map (flt_child path rel) es').
+Proof.
+  apply node_entries_perm_ind.
+  - reflexivity.
+  - intros es es' es'' _ IH Hp Hwf path rel.
+    pose proof (flt_paths_NoDup _ Hwf path rel) as Hnd. rewrite flt_Dir in Hnd.
+    apply wf_Dir in Hwf. destruct Hwf as [_ Hc].
+    specialize (IH Hc path rel). rewrite !flt_Dir_eq.
+    assert (Hp' : Permutation (map (flt_child path rel) es) (map (flt_child path rel) es''))
+      by (rewrite IH; apply Permutation_map; exact Hp).
+    f_equal.
+    + apply list_sum_perm, Permutation_map. exact Hp'.
+    + apply sort_names_perm_eq.
+      * unfold flt_dir_items. rewrite <- !flat_map_concat_map.
+        apply flat_map_perm. exact Hp'.
+      * eapply Permutation_NoDup; [|exact Hnd].
+        apply Permutation_map, sort_names_perm.
+  - reflexivity.
+  - intros n c c' es es' _ IHc _ IHes Hwf path rel. inversion Hwf as [|x l Hc Hes]; subst.
+    cbn [map]. cbn [snd] in Hc. rewrite (IHes Hes). unfold flt_child at 1 3. cbn [fst snd].
+    rewrite (IHc Hc). reflexivity.
+Qed.
+
+(* C08 for filelist_total *)
+Theorem filelist_total_enum_irrelevant root t t' :
+  node_perm t t' -> wf_node t -> filelist_total root t = filelist_total root t'.
+Proof.
+  intros Hp Hwf. unfold filelist_total. rewrite (proj1 flt_perm_mut t t' Hp Hwf). reflexivity.
+Qed.
+
+(* every file exactly once, with its data *)
+Lemma flt_files t : forall path rel,
+  Permutation (map snd (snd (flt path rel t))) (files_of rel t).
+Proof.
+  induction t as [d|es IH] using node_ind'; intros path rel; [apply Permutation_refl|].
+  rewrite flt_Dir. eapply perm_trans; [apply Permutation_map, sort_names_perm|].
+  unfold flt_dir_items. rewrite concat_map, !map_map. cbn [files_of].
+  rewrite flat_map_concat_map.
+  induction IH as [|e es He _ IHes]; cbn [map concat]; [constructor|].
+  apply Permutation_app; [apply He|exact IHes].
+Qed.
+
+(* T2 (C01), first part *)
+Theorem filelist_total_files root t :
+  Permutation (snd (filelist_total root t)) (files_of [] t).
+Proof. unfold filelist_total. cbn [snd]. apply flt_files. Qed.
+
+Lemma filelist_total_File root d : filelist_total root (File d) = (length d, [([], d)]).
+Proof. reflexivity. Qed.
+
+(* ========================================================================================== *)
+(* 7. reading the written metafile                                                             *)
+(* ========================================================================================== *)
+
+Definition top_get (k : bytes) (m : value) : option value :=
+  match m with BDict top => lookup k top | _ => None end.
+Definition info_of (m : value) : dict :=
+  match top_get k_info m with Some (BDict i) => i | _ => [] end.
+Definition info_get (k : bytes) (m : value) : option value := lookup k (info_of m).
+Definition layers_of (m : value) : dict :=
+  match top_get k_piece_layers m with Some (BDict l) => l | _ => [] end.
+
+Lemma sort_layers_arg_NoDup meta :
+  NoDup (map fst meta) ->
+  NoDup (map fst match lookup k_piece_layers meta with
+                 | Some (BDict l) => update k_piece_layers (BDict (sort_keys l)) meta
+                 | _ => meta
+                 end).
+Proof.
+  intros Hn. destruct (lookup k_piece_layers meta) as [[| | |l]|]; try exact Hn.
+  apply update_NoDup. exact Hn.
+Qed.
+
+Lemma sort_layers_lookup_other meta k :
+  NoDup (map fst meta) -> k <> k_piece_layers -> lookup k (sort_layers meta) = lookup k meta.
+Proof.
+  intros Hn Hk. unfold sort_layers. rewrite lookup_sort_keys by (apply sort_layers_arg_NoDup, Hn).
+  destruct (lookup k_piece_layers meta) as [[| | |l]|]; try reflexivity.
+  apply lookup_update_other. congruence.
+Qed.
+
+Lemma sort_layers_lookup_layers meta l :
+  NoDup (map fst meta) -> lookup k_piece_layers meta = Some (BDict l) ->
+  lookup k_piece_layers (sort_layers meta) = Some (BDict (sort_keys l)).
+Proof.
+  intros Hn Hl. unfold sort_layers. rewrite lookup_sort_keys by (apply sort_layers_arg_NoDup, Hn).
+  rewrite Hl. apply lookup_update_same.
+Qed.
+
+Lemma written_info meta info :
+  NoDup (map fst meta) ->
+  info_of (BDict (sort_meta (close_meta meta info))) = sort_keys info.
+Proof.
+  intros Hn. unfold info_of, top_get. rewrite sort_meta_close.
+  rewrite sort_layers_lookup_other; [|apply update_NoDup; exact Hn|neq].
+  unfold close_meta. rewrite lookup_update_same. reflexivity.
+Qed.
+
+Lemma written_info_get meta info k :
+  NoDup (map fst meta) -> NoDup (map fst info) ->
+  info_get k (BDict (sort_meta (close_meta meta info))) = lookup k info.
+Proof.
+  intros Hm Hi. unfold info_get. rewrite written_info by exact Hm. apply lookup_sort_keys, Hi.
+Qed.
+
+Lemma written_layers meta info l :
+  NoDup (map fst meta) -> lookup k_piece_layers meta = Some (BDict l) ->
+  layers_of (BDict (sort_meta (close_meta meta info))) = sort_keys l.
+Proof.
+  intros Hn Hl. unfold layers_of, top_get. rewrite sort_meta_close.
+  rewrite (sort_layers_lookup_layers _ l); [reflexivity|apply update_NoDup; exact Hn|].
+  unfold close_meta. rewrite lookup_update_other by neq. exact Hl.
+Qed.
+
+Lemma written_top_other meta info k :
+  NoDup (map fst meta) -> k <> k_info -> k <> k_piece_layers ->
+  top_get k (BDict (sort_meta (close_meta meta info))) = lookup k meta.
+Proof.
+  intros Hn N1 N2. unfold top_get. rewrite sort_meta_close.
+  rewrite sort_layers_lookup_other; [|apply update_NoDup; exact Hn|exact N2].
+  unfold close_meta. apply lookup_update_other. congruence.
+Qed.
+
+Ltac lk := repeat first [ rewrite lookup_update_same | rewrite lookup_update_other by neq ].
+
+(* the info keys MetaFile.__init__ may set *)
+Lemma meta_init_info_other o name pl k :
+  k <> k_comment -> k <> k_private -> k <> k_source -> k <> k_piece_length -> k <> k_name ->
+  lookup k (snd (meta_init o name pl)) = None.
+Proof.
+  intros N1 N2 N3 N4 N5. unfold meta_init. cbv zeta. cbn [snd].
+  repeat match goal with
+         | |- lookup _ (update _ _ _) = _ => rewrite lookup_update_other by congruence
+         | |- lookup _ (if ?c then _ else _) = _ => destruct c
+         end; reflexivity.
+Qed.
+
+Lemma meta_init_name o name pl : lookup k_name (snd (meta_init o name pl)) = Some (BStr name).
+Proof. unfold meta_init. cbv zeta. cbn [snd]. lk. reflexivity. Qed.
+
+Lemma meta_init_piece_length o name pl :
+  lookup k_piece_length (snd (meta_init o name pl)) = Some (BInt (Z.of_nat pl)).
+Proof. unfold meta_init. cbv zeta. cbn [snd]. lk. reflexivity. Qed.
+
+Lemma meta_init_no_layers o name pl : lookup k_piece_layers (fst (meta_init o name pl)) = None.
+Proof.
+  unfold meta_init. cbv zeta. cbn [fst].
+  repeat match goal with
+         | |- lookup _ (update _ _ _) = _ => rewrite lookup_update_other by neq
+         | |- lookup _ (if ?c then _ else _) = _ => destruct c
+         end; reflexivity.
+Qed.
+
+(* ========================================================================================== *)
+(* 8. T1 (C08): the written metafile does not depend on the enumeration order                  *)
+(* ========================================================================================== *)
+
+Section EnumIrrelevant.
+Variable H1 H256 : bytes -> bytes.
+Variable B : nat.
+
+Lemma node_perm_is_file t t' : node_perm t t' -> is_file t = is_file t'.
+Proof. destruct 1; reflexivity. Qed.
+
+Theorem create_v1_raw_enum_irrelevant align o root name pl t t' :
+  node_perm t t' -> wf_node t ->
+  create_v1_raw H1 align o root name pl t = create_v1_raw H1 align o root name pl t'.
+Proof.
+  intros Hp Hwf. unfold create_v1_raw.
+  rewrite (filelist_total_enum_irrelevant root t t' Hp Hwf), (node_perm_is_file t t' Hp).
+  reflexivity.
+Qed.
+
+Theorem create_v1_enum_irrelevant align o root name pl t t' :
+  node_perm t t' -> wf_node t ->
+  create_v1 H1 align o root name pl t = create_v1 H1 align o root name pl t'.
+Proof.
+  intros Hp Hwf. unfold create_v1. rewrite (create_v1_raw_enum_irrelevant align o root name pl t t' Hp Hwf).
+  reflexivity.
+Qed.
+
+Theorem create_v2_class_enum_irrelevant o name pl t t' :
+  node_perm t t' -> wf_node t ->
+  create_v2_class H256 B o name pl t = create_v2_class H256 B o name pl t'.
+Proof.
+  intros Hp Hwf. unfold create_v2_class, create_v2_class_raw.
+  pose proof (traverse_enum_irrelevant (v2_leaf H256 B pl) t t' Hp Hwf) as E.
+  destruct Hp as [d|es es' es'' Hq Hp]; [reflexivity|].
+  unfold root_rel. cbn [is_file]. rewrite E. reflexivity.
+Qed.
+
+Theorem create_hybrid_class_enum_irrelevant o name pl t t' :
+  node_perm t t' -> wf_node t ->
+  create_hybrid_class H1 H256 B o name pl t = create_hybrid_class H1 H256 B o name pl t'.
+Proof.
+  intros Hp Hwf. unfold create_hybrid_class, create_hybrid_class_raw.
+  pose proof (fun pad => traverse_enum_irrelevant (hybrid_leaf H1 H256 B pad pl) t t' Hp Hwf) as E.
+  destruct Hp as [d|es es' es'' Hq Hp]; [reflexivity|].
+  unfold root_rel. cbn [is_file]. rewrite E. reflexivity.
+Qed.
+
+Theorem create_assembler_enum_irrelevant hybrid o name pl t t' :
+  node_perm t t' -> wf_node t ->
+  create_assembler H1 H256 B hybrid o name pl t = create_assembler H1 H256 B hybrid o name pl t'.
+Proof.
+  intros Hp Hwf. unfold create_assembler, create_assembler_raw.
+  pose proof (fun pad => traverse_enum_irrelevant (asm_leaf H1 H256 B hybrid pad pl) t t' Hp Hwf)
+    as E.
+  destruct Hp as [d|es es' es'' Hq Hp]; [reflexivity|].
+  unfold root_rel. cbn [is_file]. rewrite E. reflexivity.
+Qed.
+End EnumIrrelevant.
+
+(* ========================================================================================== *)
+(* 9. T2 (C01): the v1 creator                                                                 *)
+(* ========================================================================================== *)
+
+Section V1.
+Variable H1 : bytes -> bytes.
+
+(* the info dictionary TorrentFile.assemble leaves behind *)
+Definition v1_files_value (align : bool) (pl : nat) (fl : list (list bytes * bytes)) : value :=
+  BList (if align then flat_map (v1_aligned_entries pl) fl
+         else map (fun f => file_entry (fst f) (length (snd f))) fl).
+
+Definition v1_info (align : bool) (o : options) (root name : bytes) (pl : nat) (t : node) : dict :=
+  let info := snd (meta_init o name pl) in
+  let fl := snd (filelist_total root t) in
+  update k_pieces
+    (BStr (concat (hasher_pieces H1 (if is_file t then false else align) pl (map snd fl))))
+    (if is_file t then update k_length (BInt (Z.of_nat (fst (filelist_total root t)))) info
+     else update k_files (v1_files_value align pl fl) info).
+
+Lemma create_v1_raw_eq align o root name pl t :
+  create_v1_raw H1 align o root name pl t =
+  close_meta (fst (meta_init o name pl)) (v1_info align o root name pl t).
+Proof.
+  unfold create_v1_raw, v1_info, v1_files_value. cbv zeta.
+  destruct (meta_init o name pl) as [meta info].
+  destruct (filelist_total root t) as [size fl]. cbn [fst snd].
+  destruct (is_file t); [reflexivity|]. destruct align; reflexivity.
+Qed.
+
+Lemma v1_info_NoDup align o root name pl t : NoDup (map fst (v1_info align o root name pl t)).
+Proof.
+  unfold v1_info. cbv zeta. apply update_NoDup.
+  destruct (is_file t); apply update_NoDup; apply meta_init_info_NoDup.
+Qed.
+
+Lemma create_v1_info_get align o root name pl t key :
+  info_get key (create_v1 H1 align o root name pl t) = lookup key (v1_info align o root name pl t).
+Proof.
+  unfold create_v1. rewrite create_v1_raw_eq.
+  apply written_info_get; [apply meta_init_meta_NoDup|apply v1_info_NoDup].
+Qed.
+
+(* directory, no --align: one entry per file, in the order of the sorted path strings; the
+   pieces are the BEP 3 hashing of the concatenation of exactly these files *)
+Theorem create_v1_dir_files o root name pl es :
+  let m := create_v1 H1 false o root name pl (Dir es) in
+  let fl := snd (filelist_total root (Dir es)) in
+  Permutation fl (files_of [] (Dir es)) /\
+  info_get k_files m = Some (BList (map (fun f => file_entry (fst f) (length (snd f))) fl)) /\
+  info_get k_length m = None /\
+  info_get k_pieces m = Some (BStr (concat (hasher_pieces H1 false pl (map snd fl)))).
+Proof.
+  cbv zeta. split; [apply filelist_total_files|].
+  rewrite !create_v1_info_get. unfold v1_info, v1_files_value. cbv zeta. cbn [is_file].
+  repeat split; lk; try reflexivity.
+  apply meta_init_info_other; neq.
+Qed.
+
+Theorem create_v1_dir_pieces o root name pl es :
+  0 < pl -> has_file (Dir es) ->
+  info_get k_pieces (create_v1 H1 false o root name pl (Dir es)) =
+  Some (BStr (concat (map H1 (chunks pl
+         (concat (map snd (snd (filelist_total root (Dir es))))))))).
+Proof.
+  intros Hpl Hf.
+  destruct (create_v1_dir_files o root name pl es) as (Hp & _ & _ & E). cbv zeta in Hp, E.
+  rewrite E. rewrite hasher_pieces_noalign; [reflexivity|exact Hpl|].
+  intros C. apply map_eq_nil in C. rewrite C in Hp. apply Permutation_nil in Hp.
+  apply Hf. exact Hp.
+Qed.
+
+(* directory with --align (C15): the entry list with pad files, and the hashing of the padded
+   stream *)
+Theorem create_v1_dir_aligned o root name pl es :
+  0 < pl -> has_file (Dir es) ->
+  let m := create_v1 H1 true o root name pl (Dir es) in
+  let fl := snd (filelist_total root (Dir es)) in
+  info_get k_files m = Some (BList (flat_map (v1_aligned_entries pl) fl)) /\
+  info_get k_length m = None /\
+  info_get k_pieces m =
+    Some (BStr (concat (map H1 (chunks pl (concat (map (pad_to pl) (map snd fl))))))).
+Proof.
+  intros Hpl Hf. cbv zeta.
+  rewrite !create_v1_info_get. unfold v1_info, v1_files_value. cbv zeta. cbn [is_file].
+  repeat split; lk; try reflexivity.
+  - apply meta_init_info_other; neq.
+  - rewrite hasher_pieces_align; [reflexivity|exact Hpl|].
+    intros C. apply map_eq_nil in C.
+    pose proof (filelist_total_files root (Dir es)) as Hp. rewrite C in Hp.
+    apply Permutation_nil in Hp. apply Hf. exact Hp.
+Qed.
+
+(* single file: info.length, no files list, plain BEP 3 pieces -- also with --align *)
+Theorem create_v1_single_file align o root name pl d :
+  0 < pl ->
+  let m := create_v1 H1 align o root name pl (File d) in
+  info_get k_length m = Some (BInt (Z.of_nat (length d))) /\
+  info_get k_files m = None /\
+  info_get k_pieces m = Some (BStr (concat (map H1 (chunks pl d)))).
+Proof.
+  intros Hpl. cbv zeta.
+  rewrite !create_v1_info_get. unfold v1_info. cbv zeta. cbn [is_file].
+  rewrite filelist_total_File. cbn [fst snd map].
+  repeat split; lk; try reflexivity.
+  - apply meta_init_info_other; neq.
+  - rewrite hasher_pieces_noalign by (assumption || discriminate).
+    cbn [concat]. rewrite app_nil_r. reflexivity.
+Qed.
+
+Theorem create_v1_name_piece_length align o root name pl t :
+  let m := create_v1 H1 align o root name pl t in
+  info_get k_name m = Some (BStr name) /\
+  info_get k_piece_length m = Some (BInt (Z.of_nat pl)).
+Proof.
+  cbv zeta. rewrite !create_v1_info_get. unfold v1_info. cbv zeta.
+  split; destruct (is_file t); lk; [apply meta_init_name|apply meta_init_name| |];
+    apply meta_init_piece_length.
+Qed.
+
+End V1.
